@@ -76,6 +76,19 @@ def run_c15(tier, seed):
             if what != "ok":
                 viol("layout", name, what, {"expected": e, "observed": obs["ret"]})
         backends["layout"] += 1
+        # describe.py is a third consumer of the field-id order: its leaf list must be the layout's leaves
+        try:
+            from fcp.describe import DescribeVisitor, flatten
+            from fcp.specs.type import StructType
+            xs = flatten(DescribeVisitor(fcp).visit(StructType(name)))
+            got_d = [[x[0], x[2]] for x in xs]
+            exp_d = [[l["own"], l["len"]] for l in o["layout"]]
+            chk.count(1, traces=1)
+            if got_d != exp_d:
+                viol("describe", name, "leaf-list-differs", {"expected": exp_d, "observed": got_d})
+            backends["describe"] = backends.get("describe", 0) + 1
+        except ImportError:
+            pass
         exp = o["dbc"][0]
         got = dbc_msgs.get(name)
         if st != "ok" or got is None:
